@@ -280,7 +280,9 @@ def unit(name, cfg, keys, bounds, **kw):
 LOTS_RECT = [dict(L=30.0, W=20.0, bmin=5.0, bmax=10.0), dict(L=20.0, W=35.0, bmin=4.0, bmax=10.0),
              dict(L=50.0, W=50.0, bmin=6.0, bmax=12.5)]
 LOTS_2D = [dict(L=20.0, W=12.0, bmin=4.0, bmx=10.0, bmy=6.0), dict(L=12.0, W=24.0, bmin=5.0, bmx=6.0, bmy=12.0)]
-LOTS_ZD = [dict(L=20.0, W=12.0, bmin=5.0, bmx=10.0, bmy=6.0)]
+# the second and third lists are NOT ordered by borehole count, as real bi-zoned lists are (37 fields: ..., 23, 21, 30, 21, 22, ... - the bisection
+# reaches the pair (index 29: 30 boreholes, index 30: 21 boreholes); the 24-field list has such pairs too but the bisection cannot evaluate both)
+LOTS_ZD = [dict(L=20.0, W=12.0, bmin=5.0, bmx=10.0, bmy=6.0), dict(L=30.0, W=20.0, bmin=5.0, bmx=10.0, bmy=10.0), dict(L=25.0, W=15.0, bmin=5.0, bmx=10.0, bmy=8.0)]
 POLY = [dict(bmin=6.0, bmx=12.0, bmy=8.0, prop=[[[0, 0], [24, 0], [24, 16], [0, 16]]], nogo=[[[8, 4], [16, 4], [16, 12], [8, 12]]]),
         dict(bmin=5.0, bmx=10.0, bmy=7.5, prop=[[[0, 0], [20, 0], [20, 10], [10, 10], [10, 20], [0, 20]]], nogo=[])]
 
@@ -306,7 +308,7 @@ def all_units(prop, keys, tier):
     for k, lot in enumerate(LOTS_2D if tier == 'thorough' else LOTS_2D[:1]):
         cfg = dict(kind='2d', p=lot, cap=None, cont='sym')
         us.append(unit('birect_any_%d' % k, cfg, keys, 'bi-rectangle nested lists for lot %s (Bisection2D), all sign patterns' % lot, max_seconds=1500))
-    for k, lot in enumerate(LOTS_ZD):
+    for k, lot in enumerate(LOTS_ZD if tier == 'thorough' else LOTS_ZD[:2]):
         cfg = dict(kind='zd_zoned', p=lot, cap=None, cont=False)
         us.append(unit('bizoned_any_%d' % k, cfg, keys, 'bi-zoned list for lot %s (BisectionZD), all sign patterns' % lot, max_seconds=1500))
     for k, pl in enumerate(POLY if tier == 'thorough' else POLY[:1]):
